@@ -138,6 +138,12 @@ def main():
         # a deformation that is not an X/Z swap (XY: Y<->Z) under noise with r_x = r_z != r_y
         ((0.1, 0.8, 0.1), 'XY', {}, 0.25, [('Planar2DCode', (2, 2)), ('RotatedPlanar2DCode', (2, 3)), ('Toric2DCode', (2, 2))],
          lambda c, e, p: MatchingDecoder(c, e, p), 'Matching'),
+        # the same deformation with two different axis values, one after the other on codes with the same label (Z-biased noise on a
+        # lattice that is not self-dual, so the two channels give different failure rates)
+        ((0.05, 0.05, 0.9), 'XZZX', {'deformation_axis': 'x'}, 0.2, [('RotatedPlanar2DCode', (2, 3))],
+         lambda c, e, p: MatchingDecoder(c, e, p), 'Matching'),
+        ((0.05, 0.05, 0.9), 'XZZX', {'deformation_axis': 'y'}, 0.2, [('RotatedPlanar2DCode', (2, 3))],
+         lambda c, e, p: MatchingDecoder(c, e, p), 'Matching'),
         # whole numbers written as Python ints (direction with int 0, error rate int 1), deformed
         ((0, 0.5, 0.5), 'XZZX', {}, 1, [('Planar2DCode', (2, 2)), ('RotatedPlanar2DCode', (3, 3))],
          lambda c, e, p: MatchingDecoder(c, e, p), 'Matching'),
